@@ -259,6 +259,9 @@ class State:
 
     def _wf_ref(self, v):
         self.type_tag(v)
+        if v.t[0] in ("list", "nd") and v.z is not None and self.qmode is None:
+            ln = z3.Select(self.map("len", z3.IntSort()), v.z) >= 0      # a sequence has a non-negative length
+            self.assume(z3.Implies(z3.Not(v.none), ln) if v.none is not None else ln)
         if v.t[0] == "enum" and v.z is not None:
             self.assume(z3.And(v.z >= 0, v.z < len(ENUMS[v.t[1]])))
         if is_ref(v.t) and v.z is not None:
